@@ -99,7 +99,47 @@ def t3_shards(n_st, n_g, kinds, state_kinds=('dff', 'latch')):
             yield list(skinds), list(gkinds)
 
 
+SLICE = None      # (which, nslices): set by the runner around a task that covers one slice of a structural shard
+
+
 def t3_shard(n_in, skinds, gkinds, extra_tap=False, dedupe=True):
+    g = _t3_shard_all(n_in, skinds, gkinds, extra_tap, dedupe)
+    return take_slice(g, SLICE[1], SLICE[0]) if SLICE else g
+
+
+_COUNTS = {}
+
+
+def t3_count(n_in, skinds, gkinds):
+    key = (n_in, tuple(skinds), tuple(gkinds))
+    if key not in _COUNTS:
+        _COUNTS[key] = sum(1 for _ in _t3_shard_all(n_in, skinds, gkinds, True, True))
+    return _COUNTS[key]
+
+
+def find_t3(task):
+    """the ('t3', n_in, state kinds, gate kinds) part of a task tuple, wherever the check module put it"""
+    if len(task) >= 4 and task[0] == 't3' and isinstance(task[2], list): return task[:4]
+    for x in task:
+        if isinstance(x, tuple) and len(x) >= 4 and x[0] == 't3': return x[:4]
+    return None
+
+
+def slice_t3_tasks(tasks, per_task):
+    """Splits every task that enumerates a structural shard with more than per_task netlists into tasks covering one interleaved
+    slice each (every nsl-th netlist), and orders the result so that slice 0 of every shard comes first, then slice 1, ...:
+    balanced work for the pool, and a run that ends at its wall-clock budget has covered a uniform sample of every shard."""
+    out = []
+    for t in tasks:
+        spec = find_t3(t)
+        nsl = 1 if spec is None else max(1, -(-t3_count(spec[1], spec[2], spec[3]) // per_task))
+        if nsl == 1: out.append((0, t))
+        else: out += [(sl, ('@slice', sl, nsl, t)) for sl in range(nsl)]
+    out.sort(key=lambda x: x[0])
+    return [t for _, t in out]
+
+
+def _t3_shard_all(n_in, skinds, gkinds, extra_tap=False, dedupe=True):
     """Structural family, one shard (fixed state kinds and gate kinds): every operand of every gate ranges
     over all earlier sources and None; every state data pin over all signals; outputs = all gate outputs
     without reader (sinks)."""
